@@ -12,190 +12,151 @@ from vsc.model.expr_literal_model import ExprLiteralModel
 from vsc.model.field_array_model import FieldArrayModel
 from vsc.model.field_scalar_model import FieldScalarModel
 from vsc.model.model_visitor import ModelVisitor
+from vsc.model.unary_expr_type import UnaryExprType
 from vsc.model.value_scalar import ValueScalar
 from vsc.visitors.expr2field_visitor import Expr2FieldVisitor
 
 
 class XExprEvaluator(ModelVisitor):
+    """Evaluates an expression built from non-random fields, foreach indices and
+    literals to a constant, using the widths and signedness the solver applies
+    to it (see ExprBinModel.build). 'is_x' marks a non-constant expression"""
     
-    def __init__(self):
+    def __init__(self, index_set=None):
         super().__init__()
+        self.index_set = index_set if index_set is not None else set()
         self.is_x = False
         self.val = None
+        self.width = -1
+        self.signed = False
+        self.ctx_width = -1
         self.debug = False
         
     def eval(self, e):
+        self.ctx_width = -1
         e.accept(self)
         return (self.is_x, self.val)
+    
+    def _set(self, v, width, signed):
+        self.is_x = False
+        self.val = ValueScalar(int(v) & ((1 << width)-1))
+        self.width = width
+        self.signed = signed
+        
+    def _set_x(self):
+        self.is_x = True
+        self.val = None
+        
+    def _eval(self, e, ctx_width):
+        self.ctx_width = ctx_width
+        e.accept(self)
+        if self.is_x:
+            return (True, None, -1, False)
+        else:
+            return (False, int(self.val), self.width, self.signed)
+        
+    @staticmethod
+    def _extend(v, width, ctx_width, signed):
+        if ctx_width > width and signed and ((v >> (width-1)) & 1) != 0:
+            v |= (((1 << ctx_width)-1) & ~((1 << width)-1))
+        return v
+    
+    @staticmethod
+    def _to_signed(v, width):
+        if ((v >> (width-1)) & 1) != 0:
+            v -= (1 << width)
+        return v
     
     def visit_expr_bin(self, e:ExprBinModel):
         if self.debug:
             print("visit_expr_bin: op=%s" % str(e.op))
-        e.lhs.accept(self)
-        lhs_is_x = self.is_x
-        lhs_val = self.val
-        
-        e.rhs.accept(self)
-        rhs_is_x = self.is_x
-        rhs_val = self.val
+        ctx_width = self.ctx_width
+        try:
+            lhs_w = int(e.lhs.width())
+            rhs_w = int(e.rhs.width())
+        except Exception:
+            # Operand that cannot be resolved (eg subscript out of bounds)
+            self._set_x()
+            return
+        if lhs_w > ctx_width:
+            ctx_width = lhs_w
+        if rhs_w > ctx_width:
+            ctx_width = rhs_w
 
-        if e.op == BinExprType.Add:
-            if lhs_is_x or rhs_is_x:
-                self.is_x = True
-                self.val = None
-            else:
-                self.is_x = False
-                self.val = (lhs_val + rhs_val)
-        elif e.op == BinExprType.And:
-            if lhs_is_x or rhs_is_x:
-                self.is_x = True
-                self.val = None
-            else:
-                self.is_x = False
-                self.val = (lhs_val & rhs_val)
-        elif e.op == BinExprType.Or:
-            if lhs_is_x or rhs_is_x:
-                self.is_x = True
-                self.val = None
-            else:
-                self.is_x = False
-                self.val = (lhs_val | rhs_val)
-        elif e.op == BinExprType.Le:
-            if lhs_is_x or rhs_is_x:
-                self.is_x = True
-                self.val = None
-            else:
-                self.is_x = False
-                if self.debug:
-                    print("lhs=%d rhs=%d" % (int(lhs_val), int(rhs_val)))
-                if lhs_val <= rhs_val:
-                    self.val = ValueScalar(1)
-                else:
-                    self.val = ValueScalar(0)
-        elif e.op == BinExprType.Lt:
-            if lhs_is_x or rhs_is_x:
-                self.is_x = True
-                self.val = None
-            else:
-                self.is_x = False
-                if self.debug:
-                    print("lhs=%d rhs=%d" % (int(lhs_val), int(rhs_val)))
-                if lhs_val < rhs_val:
-                    self.val = ValueScalar(1)
-                else:
-                    self.val = ValueScalar(0)
-        elif e.op == BinExprType.Ge:
-            if lhs_is_x or rhs_is_x:
-                self.is_x = True
-                self.val = None
-            else:
-                self.is_x = False
-                if self.debug:
-                    print("lhs=%d rhs=%d" % (int(lhs_val), int(rhs_val)))
-                if lhs_val >= rhs_val:
-                    self.val = ValueScalar(1)
-                else:
-                    self.val = ValueScalar(0)
-        elif e.op == BinExprType.Gt:
-            if lhs_is_x or rhs_is_x:
-                self.is_x = True
-                self.val = None
-            else:
-                self.is_x = False
-                if self.debug:
-                    print("lhs=%d rhs=%d" % (int(lhs_val), int(rhs_val)))
-                if lhs_val > rhs_val:
-                    self.val = ValueScalar(1)
-                else:
-                    self.val = ValueScalar(0)
-        elif e.op == BinExprType.Eq:
-            if lhs_is_x or rhs_is_x:
-                self.is_x = True
-                self.val = None
-            else:
-                self.is_x = False
-                if self.debug:
-                    print("lhs=%d rhs=%d" % (int(lhs_val), int(rhs_val)))
-                if lhs_val == rhs_val:
-                    self.val = ValueScalar(1)
-                else:
-                    self.val = ValueScalar(0)
-        elif e.op == BinExprType.Ne:
-            if lhs_is_x or rhs_is_x:
-                self.is_x = True
-                self.val = None
-            else:
-                self.is_x = False
-                if self.debug:
-                    print("lhs=%d rhs=%d" % (int(lhs_val), int(rhs_val)))
-                if lhs_val != rhs_val:
-                    self.val = ValueScalar(1)
-                else:
-                    self.val = ValueScalar(0)
+        lhs_is_x, lhs_val, lhs_w, lhs_signed = self._eval(e.lhs, ctx_width)
+        rhs_is_x, rhs_val, rhs_w, rhs_signed = self._eval(e.rhs, ctx_width)
+        
+        if lhs_is_x or rhs_is_x:
+            self._set_x()
+            return
+        
+        signed = (lhs_signed and rhs_signed)
+        lhs_val = XExprEvaluator._extend(lhs_val, lhs_w, ctx_width, signed)
+        rhs_val = XExprEvaluator._extend(rhs_val, rhs_w, ctx_width, signed)
+
+        if e.op in (BinExprType.Eq, BinExprType.Ne, BinExprType.Gt, 
+                    BinExprType.Ge, BinExprType.Lt, BinExprType.Le):
+            if signed:
+                lhs_val = XExprEvaluator._to_signed(lhs_val, ctx_width)
+                rhs_val = XExprEvaluator._to_signed(rhs_val, ctx_width)
+            if self.debug:
+                print("lhs=%d rhs=%d" % (lhs_val, rhs_val))
+            res = {
+                BinExprType.Eq : (lhs_val == rhs_val),
+                BinExprType.Ne : (lhs_val != rhs_val),
+                BinExprType.Gt : (lhs_val > rhs_val),
+                BinExprType.Ge : (lhs_val >= rhs_val),
+                BinExprType.Lt : (lhs_val < rhs_val),
+                BinExprType.Le : (lhs_val <= rhs_val)}[e.op]
+            self._set(1 if res else 0, 1, signed)
+        elif e.op == BinExprType.Add:
+            self._set(lhs_val + rhs_val, ctx_width, signed)
         elif e.op == BinExprType.Sub:
-            if lhs_is_x or rhs_is_x:
-                self.is_x = True
-                self.val = None
-            else:
-                self.is_x = False
-                self.val = (lhs_val - rhs_val)
-        elif e.op == BinExprType.Div:
-            if lhs_is_x or rhs_is_x:
-                self.is_x = True
-                self.val = None
-            else:
-                self.is_x = False
-                self.val = (lhs_val / rhs_val)
+            self._set(lhs_val - rhs_val, ctx_width, signed)
         elif e.op == BinExprType.Mul:
-            if lhs_is_x or rhs_is_x:
-                self.is_x = True
-                self.val = None
-            else:
-                self.is_x = False
-                self.val = (lhs_val * rhs_val)
+            self._set(lhs_val * rhs_val, ctx_width, signed)
+        elif e.op == BinExprType.Div:
+            # Unsigned division; division by zero yields all ones
+            self._set((lhs_val // rhs_val) if rhs_val != 0 else -1, ctx_width, signed)
         elif e.op == BinExprType.Mod:
-            if lhs_is_x or rhs_is_x:
-                self.is_x = True
-                self.val = None
-            else:
-                self.is_x = False
-                self.val = (lhs_val % rhs_val)
-        elif e.op == BinExprType.Sll:
-            if lhs_is_x or rhs_is_x:
-                self.is_x = True
-                self.val = None
-            else:
-                self.is_x = False
-                self.val = (lhs_val << rhs_val)
-        elif e.op == BinExprType.Srl:
-            if lhs_is_x or rhs_is_x:
-                self.is_x = True
-                self.val = None
-            else:
-                self.is_x = False
-                self.val = (lhs_val >> rhs_val)
+            self._set((lhs_val % rhs_val) if rhs_val != 0 else lhs_val, ctx_width, signed)
+        elif e.op == BinExprType.And:
+            self._set(lhs_val & rhs_val, ctx_width, signed)
+        elif e.op == BinExprType.Or:
+            self._set(lhs_val | rhs_val, ctx_width, signed)
         elif e.op == BinExprType.Xor:
-            if lhs_is_x or rhs_is_x:
-                self.is_x = True
-                self.val = None
-            else:
-                self.is_x = False
-                self.val = (lhs_val ^ rhs_val)
-        elif e.op == BinExprType.Not:
-            if lhs_is_x or rhs_is_x:
-                self.is_x = True
-                self.val = None
-            else:
-                self.is_x = False
-                self.val = ~lhs_val
+            self._set(lhs_val ^ rhs_val, ctx_width, signed)
+        elif e.op == BinExprType.Sll:
+            self._set((lhs_val << rhs_val) if rhs_val < ctx_width else 0, ctx_width, signed)
+        elif e.op == BinExprType.Srl:
+            self._set((lhs_val >> rhs_val) if rhs_val < ctx_width else 0, ctx_width, signed)
         else:
-            print("Unhandled op %s" % str(e.op))
+            self._set_x()
 
         if self.debug:            
-            print("    result: is_x=%s val=%d" % (str(self.is_x), int(self.val)))
+            print("    result: is_x=%s val=%s" % (str(self.is_x), str(self.val)))
+            
+    def visit_expr_unary(self, e):
+        ctx_width = self.ctx_width
+        try:
+            e_w = int(e.expr.width())
+        except Exception:
+            self._set_x()
+            return
+        if e_w > ctx_width:
+            ctx_width = e_w
+        is_x, val, width, signed = self._eval(e.expr, ctx_width)
+        if is_x or e.op != UnaryExprType.Not:
+            self._set_x()
+        else:
+            self._set(~val, width, signed)
                     
     def visit_expr_fieldref(self, e : ExprFieldRefModel):
-        e.fm.accept(self)
+        if e.fm in self.index_set:
+            # Index variables are replaced by a signed 32-bit literal
+            self._set(int(e.fm.get_val()), max(32, self.ctx_width), True)
+        else:
+            e.fm.accept(self)
         
     def visit_expr_array_subscript(self, s : ExprArraySubscriptModel):
         # Need to get field
@@ -213,39 +174,29 @@ class XExprEvaluator(ModelVisitor):
         e.get_target().accept(self)
             
     def visit_expr_in(self, e):
-        e.lhs.accept(self)
+        # TODO: for now, consider 'in' to be an x-producing expression
+        self._set_x()
         
-        if self.is_x:
-            self.val = None
-        else:
-            # TODO: for now, consider 'in' to be an x-producing expression
-            self.is_x = True
+    def visit_expr_partselect(self, e):
+        self._set_x()
+        
+    def visit_expr_cond(self, e):
+        self._set_x()
+        
+    def visit_expr_dynamic(self, e):
+        self._set_x()
         
     def visit_expr_literal(self, e : ExprLiteralModel):
-        self.is_x = False
-        self.val = e.val()
+        self._set(int(e.val()), max(int(e.width()), self.ctx_width), e.is_signed())
     
     def visit_scalar_field(self, f:FieldScalarModel):
         if f.is_used_rand:
-            self.is_x = True
-            self.val = None
+            self._set_x()
         else:
-            self.is_x = False
-            self.val = f.get_val()
+            self._set(int(f.get_val()), int(f.width), f.is_signed)
             
     def visit_enum_field(self, f:EnumFieldModel):
-        if f.is_used_rand:
-            self.is_x = True
-            self.val = None
-        else:
-            self.is_x = False
-            self.val = f.get_val()
+        self.visit_scalar_field(f)
         
     def visit_field_bool(self, f):
-        if f.is_used_rand:
-            self.is_x = True
-            self.val = None
-        else:
-            self.is_x = False
-            self.val = f.get_val()
-
+        self.visit_scalar_field(f)
